@@ -16,6 +16,9 @@ from ref.peer import ScriptedPeer, History
 NODE_HOST, NODE_REALM = "node.local", "realm.local"
 PEER_HOST, PEER_REALM = "peer.remote", "realm.remote"
 PORT = 3868
+BY_HOST, BY_REALM = "by.local", "by.realm"
+BYPEER_HOST, BYPEER_REALM = "bypeer.remote", "bypeer.realm"
+BY_PORT = 3871
 
 HOT_FUNCS = [
     "TcpConnection.read", "TcpConnection._read", "TcpConnection.write",
@@ -119,6 +122,22 @@ def draw_sched(rng, line=True):
     return d
 
 
+def bystander_for(index, every=8, phase=6):
+    """One run in `every` also carries a bystander node (see WorldA.start_bystander); decided by the
+    run index alone so that the rest of the scenario stream is what it would be without it."""
+    if index % every != phase:
+        return None
+    return {"n": 3 + (index // every) % 7, "gap": [0.0005, 0.003, 0.02][(index // every) % 3],
+            "lead": [0.0, 0.05, 0.3][(index // (3 * every)) % 3]}
+
+
+def bystander_cost(scn, quantum):
+    """Simulated time the bystander's work may take away from the node under test (the simulated CPU is
+    shared): to be added to liveness bounds."""
+    b = scn.get("bystander")
+    return (1.0 + b.get("lead", 0.0) + (2 * b["n"] + 8) * 40000 * quantum) if b else 0.0
+
+
 class WorldA(object):
     """Everything needed for one run with one node and the scripted peer."""
 
@@ -131,7 +150,7 @@ class WorldA(object):
         sched = scn["sched"]
         self.sim = Sim(rng, tape_in=tape_in,
                        quantum=sched.get("quantum", 2e-6),
-                       max_steps=scn.get("max_steps", 6_000_000),
+                       max_steps=int(scn.get("max_steps", 6_000_000) * (1.8 if scn.get("bystander") else 1)),
                        horizon=scn.get("horizon", 120.0),
                        p_sync=sched.get("p_sync", 0.15),
                        p_line=sched.get("p_line", 0.0),
@@ -152,6 +171,7 @@ class WorldA(object):
         self.node = Diameter(config=node_config(self.mode, scn.get("apps", ()),
                                                 scn.get("watchdog", 30)))
         self.abstract_states = set()
+        self.by_rec = None
         _orig_add = self.hist.add
 
         def _add(kind, **kw):
@@ -210,7 +230,7 @@ class WorldA(object):
         n = 0
         for st in stalls or ():
             for t in self.sim.threads:
-                if st["thread"] in t.role and t.state not in ("done", "new"):
+                if st["thread"] in t.role and t.state not in ("done", "new") and not t.group:
                     plan = [p for p in (t.stall_plan or []) if p[0] < (1 << 59)]
                     plan.append((t.steps + st["at"], st["dur"]))
                     t.stall_plan = sorted(plan)
@@ -220,6 +240,67 @@ class WorldA(object):
 
     def start_node(self):
         return self.call("start", self.node.start)
+
+    def maybe_bystander(self):
+        """Starts the bystander if the scenario has one."""
+        b = self.scn.get("bystander")
+        if not b or self.by_rec is not None:
+            return
+        self.start_bystander(n=b["n"], gap=b["gap"])
+        if b.get("lead"):
+            self.sim.sleep(b["lead"])
+
+    def start_bystander(self, n=8, gap=0.004):
+        """A second, independent real Diameter node in the same process (other identity, other peer,
+        other port) that opens a connection and exchanges application traffic with its own scripted
+        peer while the node under test runs.  Nothing about the bystander is judged; but whatever of
+        it shows up at the node under test -- or disappears from it -- through state shared by all
+        objects of a class or module breaks that node's oracles.  Its threads and sockets carry the
+        group tag "by" and are left out of lib_threads() / node_socks() / stall targeting."""
+        sim = self.sim
+        hist2 = History(sim)
+        peer2 = ScriptedPeer(sim, self.net, BYPEER_HOST, BYPEER_REALM, BY_HOST, BY_REALM, hist2, name="bypeer")
+        peer2.listen(("127.0.0.1", BY_PORT))
+        self.by_peer = peer2
+        apps = self.scn.get("apps", ())
+        app_id = (apps[0].get("app-id") if apps else None) or 16777251
+
+        def body():
+            sim.cur.group = "by"
+            from bromelia.setup import Diameter
+            from bromelia.base import DiameterRequest, DiameterAVP
+            from bromelia.avps import SessionIdAVP, OriginHostAVP, OriginRealmAVP, DestinationRealmAVP
+            cfg = node_config("CLIENT", apps, 30, BY_PORT)
+            cfg.update({"LOCAL_NODE_HOSTNAME": BY_HOST, "LOCAL_NODE_REALM": BY_REALM,
+                        "PEER_NODE_HOSTNAME": BYPEER_HOST, "PEER_NODE_REALM": BYPEER_REALM})
+            node2 = Diameter(config=cfg)
+            self.by_node = node2
+            node2.start()
+            if not sim.wait_until(lambda: node2.get_current_state() == "I-Open", 20.0, poll=0.002):
+                return "not-open"
+            sim.probe("bystander_open")
+            got = []
+
+            def consume():
+                while True:
+                    m = node2.get_message()
+                    if m is None:
+                        return
+                    got.append(m)
+            sim.spawn(consume, role="N:by_consumer")
+            for k in range(n):
+                hb = 0x62000000 + k
+                peer2.send(C.app_request(app_id, 316, hb, hb, "bypeer;9;%d" % k, BYPEER_HOST, BYPEER_REALM, BY_REALM))
+                m = DiameterRequest(application_id=app_id, command_code=316,
+                                    avps=[SessionIdAVP(("by;9;%d" % k).encode()), OriginHostAVP(BY_HOST),
+                                          OriginRealmAVP(BY_REALM), DestinationRealmAVP(BYPEER_REALM),
+                                          DiameterAVP(code=9901, data=b"bystander-%03d" % k)])
+                node2.send_message(m)
+                sim.sleep(gap)
+            sim.probe("bystander_done")
+            return "done"
+        self.by_rec = self.call("bystander", body)
+        return self.by_rec
 
     def start_consumer(self, name="consumer"):
         # a consumer belongs to ONE connection: it keeps calling get_message() on the association
@@ -259,7 +340,7 @@ class WorldA(object):
                    bool(getattr(a, "_recv_pending", b"")) if a is not None else "-",
                    bool(getattr(a, "_stop_threads", False)) if a is not None else "-",
                    bool(getattr(tr, "_stop_threads", False)) if tr is not None else "-",
-                   tuple(sorted((t.role.split(":")[-1].split("#")[0], t.state[0]) for t in self.sim.threads if t.library)))
+                   tuple(sorted((t.role.split(":")[-1].split("#")[0], t.state[0]) for t in self.sim.threads if t.library and not t.group)))
             self.abstract_states.add(repr(tup))
         except Exception:       # sampling must never disturb a run
             pass
@@ -277,10 +358,10 @@ class WorldA(object):
         return self.state() in ("I-Open", "R-Open")
 
     def lib_threads(self):
-        return [t for t in self.sim.threads if t.library]
+        return [t for t in self.sim.threads if t.library and not t.group]
 
     def node_socks(self):
-        return [s for s in self.net.sockets if s.owner == "node"]
+        return [s for s in self.net.sockets if s.owner == "node" and not s.group]
 
     def node_tx_messages(self, sock=None):
         """Decode everything the node wrote on its (current or given) data
